@@ -66,6 +66,8 @@ type Term struct {
 	ub   uint64 // unsigned upper bound on the value (bv only)
 	lb   uint64 // unsigned lower bound on the value (bv only)
 	pm   uint64 // mask of bits that may be one (bv only)
+	cl   bool   // ite tree whose leaves are all constants (at most 64 leaves)
+	nl   int    // number of leaves of such a tree
 }
 
 func (t *Term) IsConst() bool { return t.op == OConst }
@@ -128,6 +130,12 @@ func (c *Ctx) mk(t *Term) *Term {
 	}
 	t.id = c.nextID
 	c.nextID++
+	if t.op == OIte {
+		l1, l2 := leafCount(t.a[1]), leafCount(t.a[2])
+		if l1 > 0 && l2 > 0 && l1+l2 <= 64 {
+			t.cl, t.nl = true, l1+l2
+		}
+	}
 	if t.w > 0 {
 		t.pm = c.possible(t)
 		t.ub = c.bound(t)
@@ -311,6 +319,24 @@ func (c *Ctx) lower(t *Term) uint64 {
 	return 0
 }
 
+func leafCount(t *Term) int {
+	if t.op == OConst {
+		return 1
+	}
+	if t.cl {
+		return t.nl
+	}
+	return 0
+}
+
+// mapLeaves applies f to every constant leaf of a const-leaf ite tree.
+func (c *Ctx) mapLeaves(t *Term, f func(k *Term) *Term) *Term {
+	if t.op == OConst {
+		return f(t)
+	}
+	return c.Ite(t.a[0], c.mapLeaves(t.a[1], f), c.mapLeaves(t.a[2], f))
+}
+
 func (c *Ctx) Const(w int, v uint64) *Term {
 	if w == 0 {
 		if v != 0 {
@@ -435,6 +461,12 @@ func (c *Ctx) Bin(op Op, x, y *Term) *Term {
 	w := x.w
 	if x.op == OConst && y.op == OConst {
 		return c.Const(w, evalBin(op, w, x.c, y.c))
+	}
+	if x.cl && y.op == OConst {
+		return c.mapLeaves(x, func(k *Term) *Term { return c.Bin(op, k, y) })
+	}
+	if y.cl && x.op == OConst {
+		return c.mapLeaves(y, func(k *Term) *Term { return c.Bin(op, x, k) })
 	}
 	// canonical order for commutative ops: constant on the right
 	switch op {
@@ -650,6 +682,9 @@ func (c *Ctx) Extract(x *Term, hi, lo int) *Term {
 	if x.op == OConst {
 		return c.Const(w, x.c>>uint(lo))
 	}
+	if x.cl {
+		return c.mapLeaves(x, func(k *Term) *Term { return c.Extract(k, hi, lo) })
+	}
 	switch x.op {
 	case OZExt:
 		aw := x.a[0].w
@@ -705,6 +740,9 @@ func (c *Ctx) ZExt(x *Term, w int) *Term {
 	}
 	if x.op == OConst {
 		return c.Const(w, x.c)
+	}
+	if x.cl {
+		return c.mapLeaves(x, func(k *Term) *Term { return c.ZExt(k, w) })
 	}
 	if x.op == OZExt {
 		return c.ZExt(x.a[0], w)
@@ -856,9 +894,9 @@ func (c *Ctx) Eq(x, y *Term) *Term {
 		if x.op == OAdd && x.a[1].op == OConst {
 			return c.Eq(x.a[0], c.Const(x.w, y.c-x.a[1].c))
 		}
-		// ite(c, k1, k2) == k
-		if x.op == OIte && x.a[1].op == OConst && x.a[2].op == OConst {
-			return c.Ite(x.a[0], c.Bool(x.a[1].c == y.c), c.Bool(x.a[2].c == y.c))
+		// const-leaf ite tree == k
+		if x.cl {
+			return c.mapLeaves(x, func(k *Term) *Term { return c.Bool(k.c == y.c) })
 		}
 		// xor(a,k) == c
 		if x.op == OXor && x.a[1].op == OConst {
@@ -893,6 +931,12 @@ func (c *Ctx) Cmp(op Op, x, y *Term) *Term {
 	}
 	if x == y {
 		return c.Bool(op == OUle || op == OSle)
+	}
+	if x.cl && y.op == OConst {
+		return c.mapLeaves(x, func(k *Term) *Term { return c.Cmp(op, k, y) })
+	}
+	if y.cl && x.op == OConst {
+		return c.mapLeaves(y, func(k *Term) *Term { return c.Cmp(op, x, k) })
 	}
 	sm := uint64(1) << uint(w-1)
 	if (op == OSlt || op == OSle) && x.ub < sm && y.ub < sm {
